@@ -1854,7 +1854,7 @@ done:
 int
 evbuffer_prepend(struct evbuffer *buf, const void *data, size_t datlen)
 {
-	struct evbuffer_chain *chain, *tmp;
+	struct evbuffer_chain *chain, *tmp = NULL;
 	int result = -1;
 
 	EVBUFFER_LOCK(buf);
@@ -1899,7 +1899,13 @@ evbuffer_prepend(struct evbuffer *buf, const void *data, size_t datlen)
 			buf->n_add_for_cb += datlen;
 			goto out;
 		} else if (chain->misalign) {
-			/* we can only fit some of the data. */
+			/* we can only fit some of the data.  Get the chain for
+			 * the rest first: failing after the partial copy would
+			 * leave the buffer modified although we report -1. */
+			tmp = evbuffer_chain_new_membuf(
+			    datlen - (size_t)chain->misalign);
+			if (tmp == NULL)
+				goto done;
 			memcpy(chain->buffer,
 			    (char*)data + datlen - chain->misalign,
 			    (size_t)chain->misalign);
@@ -1912,7 +1918,7 @@ evbuffer_prepend(struct evbuffer *buf, const void *data, size_t datlen)
 	}
 
 	/* we need to add another chain */
-	if ((tmp = evbuffer_chain_new_membuf(datlen)) == NULL)
+	if (tmp == NULL && (tmp = evbuffer_chain_new_membuf(datlen)) == NULL)
 		goto done;
 	buf->first = tmp;
 	if (buf->last_with_datap == &buf->first && chain->off)
